@@ -157,11 +157,27 @@ def make_case(rng):
             all_rect = all(t.shape in ("rect", "box") for t in refs)
             has_margin = all_rect and rng.random() < 0.5
             mtext, trbl = margin_spec(rng, allow_pct=False, allow_neg=False) if has_margin else ("", [("abs", F(0))] * 4)
-            if has_margin and max(v for _, v in trbl) * 2 >= min(inter.w, inter.h):
-                has_margin, mtext, trbl = False, "", [("abs", F(0))] * 4     # margin would leave no area
+            lopsided = False
+            if has_margin and rng.random() < 0.35 and inter.w >= 2 and inter.h >= 2:
+                # lopsided margin: one side (or one per axis) takes more than half of the common area while the opposite side
+                # takes little, so an area is left but it lies entirely on one side of the centre
+                def split(extent):
+                    big = F(int(extent * 4 * rng.choice([55, 70, 85]) / 100), 4)
+                    small = F(rng.randint(0, max(0, int((extent - big) * 4) - 2)), 4) if rng.random() < 0.5 else F(0)
+                    return (big, small) if rng.random() < 0.5 else (small, big)
+                (mt, mb), (ml, mr) = split(inter.h), split(inter.w)
+                if rng.random() < 0.5:
+                    if rng.random() < 0.5:
+                        mt, mb = F(rng.randint(0, 4), 4), F(rng.randint(0, 4), 4)
+                    else:
+                        ml, mr = F(rng.randint(0, 4), 4), F(rng.randint(0, 4), 4)
+                vals = [("abs", mt), ("abs", mr), ("abs", mb), ("abs", ml)]
+                mtext, trbl, lopsided = rng.choice([" ", ",", ", "]).join(fmt(v) for _, v in vals), vals, True
+            if has_margin and (trbl[0][1] + trbl[2][1] + F(1, 2) >= inter.h or trbl[1][1] + trbl[3][1] + F(1, 2) >= inter.w):
+                has_margin, mtext, trbl, lopsided = False, "", [("abs", F(0))] * 4, False     # margin would leave no area
             s = '  <%s id="%s" inside="%s"%s/>' % (shape, cid, " ".join("#" + t.id for t in refs), (' margin="%s"' % mtext) if has_margin else "")
             conts.append(dict(id=cid, mode=mode, shape=shape, refs=[(t.id, t.shape, [fmt(v) for v in t.box.tuple()]) for t in refs],
-                              trbl=[(k, fmt(v)) for k, v in trbl], feats=["inside." + shape] + ["ref." + t.shape for t in refs] + (["margin.inside"] if has_margin else [])))
+                              trbl=[(k, fmt(v)) for k, v in trbl], feats=["inside." + shape] + ["ref." + t.shape for t in refs] + (["margin.inside"] if has_margin else []) + (["margin.inside.lopsided"] if lopsided else [])))
         items.insert(rng.randint(0, len(items)), s)
     if rng.random() < 0.2:
         # 'inside' with three or more listed rects whose common area is known: any of them (first, middle, last) may be the
